@@ -70,12 +70,12 @@ def corr_network(ctx, spec, T, seeds, safe=False):
     ctx.sample({"spec": spec, "grid_points": len(T), "seeds": seeds[:3], "row_changes": nev}, cap=4)
 
 
-def cme_test(ctx, spec, times, nruns, seed0, offset=False, sim_kind="ssa"):
+def cme_test(ctx, spec, times, nruns, seed0, offset=False, sim_kind="ssa", strided=False):
     """G-test of N seeded runs against p0*expm(Q t) at each time and jointly at the first two."""
     from bioscrape.simulator import ModelCSimInterface, SSASimulator, VolumeSSASimulator
     from bioscrape.types import Volume
     from bioscrape.random import py_seed_random
-    ctx.begin_case({"cme": spec, "times": list(times), "nruns": nruns, "seed0": seed0, "offset": offset, "simulator": sim_kind})
+    ctx.begin_case({"cme": spec, "times": list(times), "nruns": nruns, "seed0": seed0, "offset": offset, "simulator": sim_kind, "strided": strided})
     M = build_model(spec)
     I = ModelCSimInterface(M)
     S = np.array(M.py_get_update_array()) + np.array(M.py_get_delay_update_array())
@@ -84,6 +84,8 @@ def cme_test(ctx, spec, times, nruns, seed0, offset=False, sim_kind="ssa"):
     # offset: the grid starts after the initial time 0 - its first row is then a state reached by the events in (0, T0]
     T = np.array(list(times)) if offset else np.array([0.0] + list(times))
     I.py_set_dt(float(T[1] - T[0]))
+    if strided:
+        T = np.repeat(T, 2)[::2]        # the same times as a non-contiguous view of a longer buffer
     sim = SSASimulator()
     if sim_kind == "volume":
         # the volume-aware simulator at constant volume 1 samples the same master equation; its volume ticks (every dt = 1)
@@ -111,7 +113,7 @@ def cme_test(ctx, spec, times, nruns, seed0, offset=False, sim_kind="ssa"):
         worst = min(worst, p)
         if p < ALARM_P:
             ctx.violation("cme/marginal", "distribution of the reported state at t=%g differs from the master equation (G=%.1f, df=%d, p=%.2e, %d runs)" % (t, G, df, p, nruns),
-                          {"spec": spec, "time": t, "nruns": nruns, "seed0": seed0, "offset": offset, "simulator": sim_kind, "all_times": list(times), "G": G, "df": df, "p": p,
+                          {"spec": spec, "time": t, "nruns": nruns, "seed0": seed0, "offset": offset, "simulator": sim_kind, "strided": strided, "all_times": list(times), "G": G, "df": df, "p": p,
                            "observed": {str(k2): v for k2, v in sorted(obs.items())}, "expected": {str(k2): round(v * nruns, 2) for k2, v in exp.items() if v * nruns > 0.01}})
     if len(times) >= 2:
         P12 = cme.transient(Q, times[1] - times[0])
@@ -127,7 +129,7 @@ def cme_test(ctx, spec, times, nruns, seed0, offset=False, sim_kind="ssa"):
         worst = min(worst, p)
         if p < ALARM_P:
             ctx.violation("cme/joint", "joint distribution at two time points differs from the master equation (G=%.1f, df=%d, p=%.2e)" % (G, df, p),
-                          {"spec": spec, "times": list(times[:2]), "nruns": nruns, "seed0": seed0, "offset": offset, "simulator": sim_kind, "all_times": list(times), "G": G, "df": df, "p": p})
+                          {"spec": spec, "times": list(times[:2]), "nruns": nruns, "seed0": seed0, "offset": offset, "simulator": sim_kind, "strided": strided, "all_times": list(times), "G": G, "df": df, "p": p})
     ctx.count("cme_tests")
     ctx.notes.append("CME G-test %s: %d states, %d runs, min p=%.3g" % ([r["prop"]["type"] for r in spec["reactions"]], len(states), nruns, worst))
 
@@ -142,11 +144,11 @@ def run(ctx):
         corr_network(ctx, spec, T, seeds, safe=(spec["needs_safe"] or i % 5 == 4))
     nruns = 3000 if ctx.quick() else 200000
     for k, spec in enumerate(FINITE):
-        cme_test(ctx, spec, [0.3, 1.0, 2.5], nruns, 1000 * ctx.seed + 17 * k + 1)
+        cme_test(ctx, spec, [0.3, 1.0, 2.5], nruns, 1000 * ctx.seed + 17 * k + 1, strided=bool(k % 2))
     cme_test(ctx, FINITE[0], [0.75, 1.25, 2.5], nruns, 1000 * ctx.seed + 777, offset=True)
     cme_test(ctx, FINITE[1], [0.1, 0.3, 0.6, 1.0, 2.5], nruns, 1000 * ctx.seed + 555, sim_kind="volume")
     cme_test(ctx, FINITE_DELAYED, [0.3, 1.0, 2.5], nruns, 1000 * ctx.seed + 333)
-    cme_test(ctx, FINITE_DELAYED, [0.3, 1.0, 2.5], nruns, 1000 * ctx.seed + 444, sim_kind="volume")
+    cme_test(ctx, FINITE_DELAYED, [0.3, 1.0, 2.5], nruns, 1000 * ctx.seed + 444, sim_kind="volume", strided=True)
 
 
 def replay(ctx, obj):
@@ -154,7 +156,7 @@ def replay(ctx, obj):
     if "grid" in rep:
         corr_network(ctx, rep["spec"], np.array(rep["grid"]), [rep["seed"]], rep.get("safe", False))
     else:
-        cme_test(ctx, rep["spec"], rep.get("all_times") or ([0.75, 1.25, 2.5] if rep.get("offset") else [0.3, 1.0, 2.5]), rep.get("nruns", 3000), rep.get("seed0", 1), offset=bool(rep.get("offset")), sim_kind=rep.get("simulator", "ssa"))
+        cme_test(ctx, rep["spec"], rep.get("all_times") or ([0.75, 1.25, 2.5] if rep.get("offset") else [0.3, 1.0, 2.5]), rep.get("nruns", 3000), rep.get("seed0", 1), offset=bool(rep.get("offset")), sim_kind=rep.get("simulator", "ssa"), strided=bool(rep.get("strided")))
 
 
 def describe(ctx):
